@@ -25,6 +25,12 @@ SplitStr(s) == SplitAcc(s, <<>>, <<>>)
 SegAlphabet == { <<>>, <<47>>, <<97, 47, 98>>, <<48>>, <<48, 49>>, <<45>>, <<97>>, <<195, 169>>, <<46, 46>>, <<32>> }
 StrPaths == UNION {{<<x>>, <<x, y>>, <<x, y, z>>} : x \in SegAlphabet, y \in SegAlphabet, z \in {<<97>>, <<>>, <<47>>}} \cup {<<>>}
 
+\* arbitrary STRINGS handed to ParsePath (it is reachable from untrusted input): everything over {a, 0, /} up to five bytes
+RECURSIVE StrsUpTo(_)
+StrsUpTo(len) == IF len = 0 THEN {<<>>}
+                 ELSE LET shorter == StrsUpTo(len - 1) IN shorter \cup {Append(str, byte) : str \in shorter, byte \in {97, 48, 47}}
+ParseStrs(dummy) == StrsUpTo(5) \cup {<<47, 47, 47, 47, 47, 47, 47>>, <<97, 47, 98, 47, 47, 47>>, <<195, 169, 47, 47>>}
+
 Clean(p) == \A i \in DOMAIN p : p[i] # <<>> /\ \A j \in DOMAIN p[i] : p[i][j] # 47
 
 \* ---- resolution probes: every existing path (depth <= 3) extended by nothing or by one odd segment
@@ -43,11 +49,16 @@ GetProbes ==
 Init2 == /\ case = [g |-> G7, sel |-> SMatch, cfg |-> NoCfg] /\ frames = <<>> /\ visits = <<>> /\ loads = <<>>
          /\ nb = -1 /\ lb = -1 /\ seen = {} /\ err = <<>> /\ done = TRUE      \* the walk machine is idle here
          /\ probe \in ({[kind |-> "str", gi |-> 0, path |-> p] : p \in StrPaths}
+                    \cup {[kind |-> "parse", gi |-> 0, path |-> <<str>>] : str \in ParseStrs(0)}
                     \cup {[kind |-> "get", gi |-> x.gi, path |-> x.path] : x \in GetProbes})
 Next2 == UNCHANGED <<probe, vars>>
 Spec2 == Init2 /\ [][Next2]_<<probe, vars>>
 
 \* a path survives formatting and re-parsing exactly when no segment is empty or contains a slash
+\* what ParsePath returns never holds an empty segment or a separator, and formatting it again loses nothing more
+ParseIsClean ==
+  probe.kind = "parse" => LET p == SplitStr(probe.path[1]) IN Clean(p) /\ SplitStr(JoinSegs(p)) = p
+
 RoundTripIffClean ==
   probe.kind = "str" => ((SplitStr(JoinSegs(probe.path)) = probe.path) <=> Clean(probe.path))
 
@@ -64,7 +75,10 @@ ResolveIffExists ==
 
 Emit2 ==
   PrintT(ToJson(
-    IF probe.kind = "str"
+    IF probe.kind = "parse"
+      THEN [kind |-> "parse", g |-> <<>>, path |-> <<>>, joined |-> probe.path[1],
+            split |-> SplitStr(probe.path[1]), ok |-> TRUE, node |-> Nil]
+    ELSE IF probe.kind = "str"
       THEN [kind |-> "str", g |-> <<>>, path |-> probe.path, joined |-> JoinSegs(probe.path),
             split |-> SplitStr(JoinSegs(probe.path)), ok |-> TRUE, node |-> Nil]
       ELSE LET g == Graphs[probe.gi]  r == Resolve(g, g[1], probe.path)
